@@ -18,6 +18,7 @@ PRE = ("From Coq Require Import List NArith ZArith.\nFrom Echo Require Import Ba
 CAP = 256 << 20          # child allocation cap (bytes above the baseline at call time)
 STACK = 8 << 20          # child worker stack
 ORACLE_C, ORACLE_C0 = 256, 64 << 10
+TIMEOUT_MS = 10000     # wall budget per input (a healthy decoder needs < 100 ms for 1 MiB)
 MODEL_MAX = 600          # inputs up to this many bytes are also run through the Coq model
 ERR_SLACK = 512          # error-message strings are not charged by the model
 NAN = 0x7ff8000000000000
@@ -147,15 +148,16 @@ def adversarial_cbor():
     return out
 
 
-def deep_specs():
+def deep_specs(full=True):
     """Deep nesting (impl only, compact spec form)."""
     out = []
-    for pat, tail in (("81", "f6"), ("a100", "f6"), ("9f", "ff"), ("a1", "00"), ("d8", "00"), ("c1", "00"),
-                      ("9a00010000", "f6"), ("bb0000000000000001", "00"), ("5f", "ff"), ("7f", "ff"), ("8181a100", "f6")):
-        for n in (128, 129, 1000, 20000, 1048575):
+    pats = (("81", "f6"), ("a100", "f6"), ("9f", "ff"), ("a1", "00"), ("d8", "00"), ("c1", "00"),
+            ("9a00010000", "f6"), ("bb0000000000000001", "00"), ("5f", "ff"), ("7f", "ff"), ("8181a100", "f6"))
+    for pat, tail in (pats if full else pats[:4]):
+        for n in ((128, 129, 1000, 20000, 1048575) if full else (129, 2000, 1048575)):
             cnt = n // (len(pat) // 2) if n > 1000 else n
             out.append(f"{pat}*{cnt}+{tail}")
-            if n >= 100000:
+            if n >= 100000 and full:
                 out.append(f"{pat}*{cnt}")
     return out
 
@@ -355,7 +357,7 @@ def big_specs(rng, dec, seeds, cborish, tier, ops=None):
     fam = EINT_FAMILY.get(dec)
     if fam and ops:
         op = {"control": ops["control_op"], "import": ops["import_op"], "any": 77}[fam]
-        for sp in deep_specs():
+        for sp in deep_specs(False):
             out.append(("eint-deep", eint_spec(op, sp, spec_len(sp))))
     for ln in (4096, 65536, 1 << 20):
         out.append(("big-random", f"r{rng.getrandbits(32)}x{ln}"))
@@ -366,7 +368,7 @@ def big_specs(rng, dec, seeds, cborish, tier, ops=None):
         if len(s) > 4:
             out.append(("seed-prefix+big-tail", f"{hexs(s[:len(s) // 2])}+ff*{1 << 20}"))
     if cborish:
-        for sp in deep_specs():
+        for sp in deep_specs(dec in ("abi-cbor", "edict", "scene-delta") or tier == "thorough"):
             out.append(("deep", sp))
         for m in ("5b", "7b", "9b", "bb", "5a", "7a", "9a", "ba"):
             out.append(("big-declared", f"{m}{'00' * (8 if m[1] == 'b' else 4)}"[:2] + ("0000000000100000" if m[1] == "b" else "00100000") + f"+00*{1 << 20}"))
@@ -378,7 +380,8 @@ def big_specs(rng, dec, seeds, cborish, tier, ops=None):
 def harness_run(bins, tag, lines, extra=()):
     path = vf.write_cases(tag, lines)
     rc, out = vf.run_bin(bins["c13"], path, timeout=2400,
-                         args=["--cap", str(CAP), "--stack", str(STACK), "--c", str(ORACLE_C), "--c0", str(ORACLE_C0)] + list(extra))
+                         args=["--cap", str(CAP), "--stack", str(STACK), "--c", str(ORACLE_C), "--c0", str(ORACLE_C0),
+                               "--timeout-ms", str(TIMEOUT_MS)] + list(extra))
     if rc:
         raise vf.Broken(f"harness c13 exited {rc}: {out[-800:]}")
     res = [l for l in out.splitlines() if l.startswith("dec=")]
